@@ -148,7 +148,7 @@ theorem T_C19 (v : Variant) (attr : Toks) (item : Item) (out : Out)
     simp only [expand] at h
     split at h
     · simp at h
-    · obtain ⟨items, a, fns, tg, depMode, implBlock, h0, h1, h2, h3, h4, rfl⟩ := expandMod_ok h
+    · obtain ⟨items, a, fns0, fns, tg, depMode, implBlock, h0, h1, h2, hfns, h3, h4, rfl⟩ := expandMod_ok h
       have him := genImplBlock_ok h4
       have hg : depMode = .generic := by
         cases depMode with
@@ -167,7 +167,7 @@ theorem T_C19 (v : Variant) (attr : Toks) (item : Item) (out : Out)
       simp only [traitPredOk, Bool.true_and, concreteFn, Bool.false_or, macroHeadAbs_implParams, implSelfTy]
       cases (v.apply a.opts).mockable <;> simp
   | impl m =>
-    obtain ⟨items, a, fns, tg, depMode, implBlock, h0, h1, h2, h3, h4, rfl⟩ := expandImpl_ok h
+    obtain ⟨items, a, fns0, fns, tg, depMode, implBlock, h0, h1, h2, hfns, h3, h4, rfl⟩ := expandImpl_ok h
     have him := genImplBlock_ok h4
     obtain ⟨hg, _⟩ := C07.detectDepMode_impl fns depMode h3
     subst hg
